@@ -6,3 +6,7 @@ package env
 
 //@ func GetEnviron
 //@   sweep                                                          [C16]
+
+//@ func Get
+//@   trusted
+//@   pure allocates
